@@ -681,7 +681,17 @@ func (res *Resolver) ResolveGlob(sourceDir string, importPathPattern []helpers.G
 		}
 	}
 	sb.WriteByte('$')
-	re := regexp.MustCompile(sb.String())
+	// The import path can hold bytes that are not valid UTF-8 (a lone surrogate
+	// escape in the string literal is kept as WTF-8). The "regexp" package
+	// rejects such a pattern, so "MustCompile" would panic here.
+	re, err := regexp.Compile(sb.String())
+	if err != nil {
+		if r.debugLogs != nil {
+			r.debugLogs.addNote(fmt.Sprintf("Failed to compile the pattern %q: %s", sb.String(), err.Error()))
+		}
+		r.flushDebugLogs(flushDueToFailure)
+		return nil, nil
+	}
 
 	// Initialize "results" to a non-nil value to indicate that the glob is valid
 	results := make(map[string]ResolveResult)
